@@ -106,6 +106,10 @@ let check_record (r : record) =
           let first l = List.filteri (fun i _ -> i < k) l in
           let dl = first (String.split_on_char '\n' (string_of_bytes r.decoded)) in
           let pl = first (String.split_on_char '\n' (string_of_bytes plain)) in
+          let nd = List.length r.decoded in
+          if List.filteri (fun i _ -> i >= nd - List.length marker) r.decoded <> marker then
+            prop "name-lists-frames" ("the expansion of a truncated crash name does not end with the truncation marker: " ^
+                                      show_b (List.filteri (fun i _ -> i >= nd - 14) r.decoded));
           if dl <> pl then
             prop "name-lists-frames" (Printf.sprintf "truncated name: first %d expanded lines %S but the frames are %S" k
                                         (String.concat "\n" dl) (String.concat "\n" pl))
